@@ -543,7 +543,7 @@ class Interp:
             return Other('class:' + n.id)
         if n.id in ('int', 'float', 'str', 'list', 'tuple', 'dict', 'set', 'Iterable', 'bool'):
             return Other('type:' + n.id)
-        if n.id in ('numpy', 'np', 'pandas', 'math'):
+        if n.id in ('numpy', 'np', 'pandas', 'math', 'itertools'):
             return Other('module:' + n.id)
         if n.id == 'config':
             return Obj('config')
